@@ -434,9 +434,9 @@ fn tcp_apply_opts(t: PacketBuilderStep<TcpHeader>, o: u8) -> PacketBuilderStep<T
     use TcpOptionElement::*;
     match o {
         0 => t,
-        // the builder step is used twice: 40 option bytes of 0xff first, then replaced by the 4 byte list (nothing of the
+        // the builder step is used twice: the 40 byte option list first (not 0xff / 0x00 filler: such words are invisible to a one's complement sum), then replaced by the 4 byte list (nothing of the
         // first set may reach the output or the checksum)
-        1 => t.options_raw(&[0xff; 40]).unwrap().options_raw(&[2, 4, 0x05, 0xb4]).unwrap(),
+        1 => t.options_raw(&tcp_opts_wire(3)).unwrap().options_raw(&[2, 4, 0x05, 0xb4]).unwrap(),
         2 => t.options(&[MaximumSegmentSize(1460), WindowScale(7), SelectiveAcknowledgementPermitted, Timestamp(0x0102_0304, 0x0506_0708)]).unwrap(),
         _ => t.options_raw(&tcp_opts_wire(3)).unwrap(),
     }
@@ -935,7 +935,7 @@ pub fn chain(c: &Cfg, t: &Tables) -> String {
             TCP_ACKNO,
             match opts {
                 0 => "no options".to_string(),
-                1 => "options_raw(40 x 0xff) then options_raw(02 04 05 b4 = MSS(1460))".to_string(),
+                1 => "options_raw(the 40 byte list) then options_raw(02 04 05 b4 = MSS(1460))".to_string(),
                 2 => "options([MSS(1460), WindowScale(7), SackPermitted, Timestamp(0x01020304, 0x05060708)])".to_string(),
                 _ => format!("options_raw({})", crate::fw::hex(&tcp_opts_wire(3))),
             }
